@@ -192,6 +192,28 @@ def check_pair(case, res):
                 bad('point_inside', exp_p, got, point=[str(px), str(py)])
         else:
             res.counters['ambiguous:point_inside'] += 1
+    # ---- a rectangle that reached A's place from elsewhere answers like a fresh one (differential oracle):
+    #      built at B's place and queried there, then moved/resized in place (as Module.recenter_rectangles
+    #      does) or through the setters
+    from frame.geometry.geometry import Shape
+    fresh = (A.area_overlap(B), A.is_inside(B), B.is_inside(A), A.touches(B), repr(A * B), repr(B * A),
+             A.point_inside(B.center), bb_tuple(A), A.area)
+    for how in ('inplace', 'setter'):
+        M, _ = mk(fam, rb)
+        _ = (M.bounding_box, M.area, M.area_overlap(B), M.point_inside(B.center))      # queried at the old place
+        if how == 'inplace':
+            M.center.x += A.center.x - M.center.x
+            M.center.y += A.center.y - M.center.y
+            M.shape.w, M.shape.h = A.shape.w, A.shape.h
+            if (M.center.x, M.center.y) != (A.center.x, A.center.y):    # rounding of the increment: set exactly
+                M.center.x, M.center.y = A.center.x, A.center.y
+        else:
+            M.center = Point(A.center.x, A.center.y)
+            M.shape = Shape(A.shape.w, A.shape.h)
+        moved = (M.area_overlap(B), M.is_inside(B), B.is_inside(M), M.touches(B), repr(M * B), repr(B * M),
+                 M.point_inside(B.center), bb_tuple(M), M.area)
+        if moved != fresh:
+            bad('moved-rectangle', [str(x) for x in fresh], [str(x) for x in moved], how=how)
     kind = 'disjoint' if common == 0 and not exp_touch else 'touching' if common == 0 else \
         'identical' if ea == eb else 'nested' if (exp_in or xinside(eb, ea)) else 'crossing'
     res.case(kind, nontrivial=(kind != 'disjoint'))
@@ -233,7 +255,7 @@ def check_single(case, res):
     def bad(clause, exp, obs, **extra):
         res.violation(clause, case, dict(attrs, **extra), exp, obs)
 
-    for (region, fixed, hard) in (('_', False, False), ('bram', True, True)):
+    for (region, fixed, hard) in (('_', False, False), ('bram', True, True), ('_', False, True), ('dsp', True, False)):
         R, ex = mk(fam, r, region, fixed, hard)
         x0, y0, x1, y1 = ex
         w, h = x1 - x0, y1 - y0
